@@ -127,6 +127,8 @@ def run_one(ctx, extras):
     tg = targeted(extras); random.Random(ctx.seed).shuffle(tg)
     # every targeted shape is always part of the run; the seeded family fills the rest (at least a third of the budget)
     gs = tg + [g for g in gramgen.family(ctx.seed, count, extras=extras) if g not in tg][:max(count - len(tg), count // 3)]
+    if not extras:
+        gs += [g for g in gramgen.crossed_slice(ctx.seed, int(os.environ.get("VERIF_C02_CROSS", "80" if ctx.quick else "900"))) if g not in set(gs)]
     tgset = set(tg)
     native.build(extras)
     stages = c01.front(gs, extras)
